@@ -3,7 +3,7 @@ import json, itertools
 from fractions import Fraction
 import numpy as np
 from harness import votelib as V
-from harness.common import pmap, lean_query, guard, fr, to_np, safe_judge
+from harness.common import pmap, lean_query, guard, fr, to_np, safe_judge, persist, persist_rule
 from harness.c01 import chunks
 
 LEVEL = "proof"
@@ -29,16 +29,17 @@ def run_rules(P, m, vals, k, lam):
         sc = rule.score(prof)
         w = rule.scf(prof)
         out[name] = {"score": [fr(V.fscore(x)) for x in sc], "winners": [int(x) for x in np.atleast_1d(w)]}
-    out["stv"] = {"winner": int(SingleTransferableVote(tie_breaker="first", zero_indexed=True).scf(CompleteProfile.of(np.array(P, dtype=np.int64))))}
+    stv = persist_rule(("stv", "first", True), lambda: SingleTransferableVote(tie_breaker="first", zero_indexed=True))
+    out["stv"] = {"winner": int(stv.scf(persist("stvP", np.array(P, dtype=np.int64), CompleteProfile.of)))}
     if vals is not None:
-        vp = ValuationProfile.of(to_np(vals))
-        r = SocialWelfare(tie_breaker="accept", zero_indexed=True)
+        vp = persist("vals", to_np(vals), ValuationProfile.of)
+        r = persist_rule(("sw", "accept", True), lambda: SocialWelfare(tie_breaker="accept", zero_indexed=True))
         out["util"] = {"score": [fr(Fraction(float(x))) for x in r.score(vp)], "winners": [int(x) for x in np.atleast_1d(r.scf(vp))]}
-        r = KARV(k=k, tie_breaker="accept", zero_indexed=True)
+        r = persist_rule(("karv", k, "accept", True), lambda: KARV(k=k, tie_breaker="accept", zero_indexed=True))
         sc = r.score(prof, ValuationProfileElicitor(vp))
         w = r.scf(prof, ValuationProfileElicitor(vp))
         out["karv"] = {"score": [fr(Fraction(float(x))) for x in sc], "winners": [int(x) for x in np.atleast_1d(w)]}
-        r = LambdaPRV(lambda_=lam, tie_breaker="accept", zero_indexed=True)
+        r = persist_rule(("prv", lam, "accept", True), lambda: LambdaPRV(lambda_=lam, tie_breaker="accept", zero_indexed=True))
         sc = r.score(prof, ValuationProfileElicitor(vp))
         w = r.scf(prof, ValuationProfileElicitor(vp))
         out["prv"] = {"score": [fr(Fraction(float(x))) for x in sc], "winners": [int(x) for x in np.atleast_1d(w)]}
@@ -232,6 +233,9 @@ def run(R):
     for t in range(cnt):
         m = R.rng.choice([2, 3, 3, 4, 5, 6, 8])
         n = R.rng.choice([1, 2, 3, 4, 5, 8, 12, 20, 40, 65, 97, 130])
+        if t % 22 == 21:          # many alternatives AND a large electorate (n * m * m beyond any fixed block size of a vectorised rewrite)
+            m = R.rng.choice([14, 25, 30, 40])
+            n = R.rng.choice([50, 75, 120])
         P = V.structured_profile(R.rng, n, m) if R.rng.random() < 0.4 else V.rand_profile(R.rng, n, m)
         vperm = list(range(n)); R.rng.shuffle(vperm)
         sig = list(range(m)); R.rng.shuffle(sig)
